@@ -62,12 +62,11 @@ func TestC18_AddPartialRegistration(t *testing.T) {
 	}
 }
 
-// OPEN finding (not repaired in /repo; the name keeps it out of `^TestC18_`, which every
-// check of C18 runs first): the prefix is matched by a regular expression, and Go's regexp
-// decodes an invalid byte of the text as U+FFFD, so a U+FFFD in the prefix also matches any
-// byte of the text that starts no valid UTF-8 sequence: a text that does not begin with the
-// prefix runs a command.  Passes with notes/proposed-fixes/cmdhandler-literal-prefix.diff.
-func TestOpenC18_PrefixReplacementRune(t *testing.T) {
+// Repaired in cd20b6b: the prefix was matched by a regular expression, and Go's regexp
+// decodes an invalid byte of the text as U+FFFD, so a U+FFFD in the prefix also matched any
+// byte of the text that starts no valid UTF-8 sequence: a text that did not begin with the
+// prefix ran a command.  New also refused prefixes that are not valid UTF-8.
+func TestC18_PrefixReplacementRune(t *testing.T) {
 	ch, err := cmdhandler.New("\uFFFD")
 	if err != nil {
 		t.Fatal(err)
@@ -83,5 +82,18 @@ func TestOpenC18_PrefixReplacementRune(t *testing.T) {
 		if got := c18Runs(t, ch, ran, text); len(got) != 0 {
 			t.Errorf("text %q does not start with the prefix %q but ran %v", text, "\uFFFD", got)
 		}
+	}
+	bin, err := cmdhandler.New("\xff!")
+	if err != nil {
+		t.Fatalf("a prefix that is not valid UTF-8 is refused: %v", err)
+	}
+	if err := bin.Add(&cmdhandler.Command{Name: "ping", Fn: c18Fn(ran, "ping")}); err != nil {
+		t.Fatal(err)
+	}
+	if got := c18Runs(t, bin, ran, "\xff!ping"); len(got) != 1 {
+		t.Fatalf("prefix \\xff!: %v", got)
+	}
+	if got := c18Runs(t, bin, ran, "\uFFFD!ping"); len(got) != 0 {
+		t.Fatalf("prefix \\xff! matched U+FFFD: %v", got)
 	}
 }
